@@ -56,6 +56,9 @@ func (node *tagIfchangedNode) Execute(ctx *ExecutionContext, writer TemplateWrit
 		changed := len(state.lastValues) == 0
 
 		for idx, oldVal := range state.lastValues {
+			if oldVal.IsNil() && nowValues[idx].IsNil() {
+				continue // nothing then, nothing now: unchanged
+			}
 			if !oldVal.EqualValueTo(nowValues[idx]) {
 				changed = true
 				break // we can stop here because ONE value changed
